@@ -2,8 +2,8 @@
    For EVERY well-formed plan, EVERY oracle (completion order, return codes, launch failures),
    every jobs >= 1, at EVERY state the executor loop passes through. *)
 From Coq Require Import List Arith Bool NArith.
-From Conductor Require Import Model.Loader Model.Planner Model.Exec
-  Proofs.ExecInv Proofs.ExecTheorems Proofs.ExecMain.
+From Conductor Require Import Model.Loader Model.Planner Model.Exec Model.RunCase
+  Proofs.ExecInv Proofs.ExecTheorems Proofs.ExecMain Proofs.PlannerInv Proofs.PlannerOrder Proofs.ComposeExec.
 Import ListNotations.
 
 (* [infl s] = operations in flight; [procs s] = (operation, COND_SLOT) of the running processes.
@@ -26,6 +26,24 @@ Theorem C04_limits :
     (gate_open jobs s = true -> avail s <> []).
 Proof. exact main_limits. Qed.
 Print Assumptions C04_limits.
+
+(* End to end, in terms of the TASKS' `parallelizable` attribute (par_of: the declared flag for
+   run_command / run_experiment, false for group / combine): at every state the executor passes
+   through when `cond run` executes a project the loader accepted -- no side condition. *)
+Theorem C04_limits_end_to_end :
+  forall fuel tasks c loaded ps r,
+  cond_run fuel tasks c = ORun loaded ps r -> 1 <= c_jobs c ->
+  let pl := plan_of ps in let orc := oracle_of pl c in let jobs := c_jobs c in
+  let task o := op_task (op_at (ops ps) o) in let par t := par_of (info_of tasks) t in
+  forall s, reachable pl jobs (c_stop c) orc s ->
+    length (infl s) <= jobs /\
+    (forall o, In o (infl s) -> o < length (ops ps)) /\
+    (forall o, In o (infl s) -> par (task o) = false -> infl s = [o]) /\
+    NoDup (slots_of (procs s)) /\ (forall sl, In sl (slots_of (procs s)) -> sl < jobs) /\
+    (forall o sl, In (o, sl) (procs s) -> (sl = None <-> (par (task o) = false \/ jobs <= 1))) /\
+    (forall o, In o (infl s) <-> (exists sl, In (EStart o sl) (trace s)) /\ forall rc, ~ In (EFinish o rc) (trace s)).
+Proof. exact cond_run_limits. Qed.
+Print Assumptions C04_limits_end_to_end.
 
 (* non-vacuity: three independent parallelizable operations under jobs = 2 run two at a time
    with slots 0 and 1, the third reuses the slot freed first *)
